@@ -1612,6 +1612,40 @@ def rule_r11(facts, rep, rid="C01-R11"):
                               "arena, unreachable)" % (vs_, got, want), loc(sec, arm["body"]))
 
 
+# ------------------------------------------------------------------------------------------------------------ R12 loose-list decision
+
+def rule_r12(facts, rep, rid="C01-R12"):
+    rep.rule(rid, "a list is written loose (blank line between an item's blocks) iff SOME item has more than one paragraph ANYWHERE in it: GraphBlock::is_sparce_list counts the "
+                  "paragraphs of every item over the whole item (`item.iter().filter(is_paragraph).count() > 1` or an equivalent count); a positional test (second block, leading "
+                  "run, first / last) misses `[text, nested list, paragraph]`, which is then written tight and re-read with the paragraph glued to the nested item")
+    f = facts.fn("GraphBlock::is_sparce_list")
+    rep.saw_fn(f)
+    n = 0
+    for vs, arm in A.arms_of(A.matches_on(f, "GraphBlock")[0]) if A.matches_on(f, "GraphBlock") else []:
+        lists = [fb.last_seg(v) for v in vs if fb.last_seg(v) in ("BulletList", "OrderedList")]
+        if not lists:
+            continue
+        body = arm["body"]
+        calls = [x for x in fb.walk(body) if x.get("k") == "mcall"]
+        names = [x["name"] for x in calls]
+        para = any((fb.callee(x) or "").endswith("GraphBlock::is_paragraph") for x in fb.walk(body) if x.get("k") in ("mcall", "call")) or \
+            any(y.get("k") == "path" and fb.norm(y.get("def") or "").endswith("GraphBlock::is_paragraph") for y in fb.walk(body))
+        counts_all = "filter" in names and ("count" in names or "nth" in names or "take" in names) and "any" in names
+        positional = [m for m in names if m in ("get", "first", "last", "take_while", "skip_while", "skip", "windows", "nth_back", "split_first", "split_last", "position", "find")
+                      and not (m == "nth" and "filter" in names)]
+        idx = [x for x in fb.walk(body) if x.get("k") == "index"]
+        for v in lists:
+            n += 1
+            key = "%s|arm:%s|counts-paragraphs-of-the-whole-item" % (f.def_, v)
+            if para and counts_all and not positional and not idx:
+                rep.ok(rid, key, "any(item -> filter(is_paragraph).count() > 1)", loc(f, body))
+            else:
+                rep.violation(rid, key, "the loose-list decision for %s is not a count of the paragraphs over each whole item (paragraph test: %s, filter+count under any(): %s, positional "
+                              "access: %s): an item shaped `[text, nested list or quote, paragraph]` is written without the blank line and the paragraph is merged into the nested block on "
+                              "the next read" % (v, para, counts_all, positional or ("indexing" if idx else "-")), loc(f, body))
+    rep.floor(rid, "list arms of is_sparce_list", n, 2)
+
+
 def run(facts, rep, tier):
     rule_r1(facts, rep)
     rule_r1b(facts, rep)
@@ -1644,6 +1678,7 @@ def run(facts, rep, tier):
     rep.rule("C01-R4d", "= C05-R7: only a one-inline paragraph is a block reference (otherwise the other inlines of the paragraph are dropped when the note is formatted).")
     c05.rule_r7(facts, rep, "C01-R4d")
     rule_r11(facts, rep)
+    rule_r12(facts, rep)
 
 class _Only:
     """Forwards only the instances whose key contains a marker."""
